@@ -10,10 +10,17 @@ mkdir -p /verif/.scratch
 {
 git -C /repo worktree add -q --detach $WT HEAD || exit 2
 cd $WT
-if ! git apply $SRC/patch.diff; then echo "RESULT $ID-$X patch-does-not-apply"; cd /; git -C /repo worktree remove --force $WT; exit 1; fi
+if ! git apply $SRC/patch.diff 2>/dev/null; then
+  # context moved because of later fix: commits in /repo; rebase the patch with fuzz and re-save it
+  if patch -p1 -F3 -s --no-backup-if-mismatch < $SRC/patch.diff; then
+    find . -name "*.orig" -delete; git diff -- src > $SRC/patch.diff; echo "patch rebased onto current HEAD with patch -F3"
+  else
+    echo "RESULT $ID-$X patch-does-not-apply"; cd /; git -C /repo worktree remove --force $WT; exit 1
+  fi
+fi
 PYTHONPATH=$WT/src NUMBA_CACHE_DIR=$WT/.numba timeout 900 /venv/bin/python $SRC/demo.py >/dev/null 2>&1; with=$?
 sed -e "s|-n 14|-n ${VS_N:-8}|" /verif/tools/run_suite.sh > $WT/run_suite.sh; chmod +x $WT/run_suite.sh
-NUMBA_CACHE_DIR=$WT/.numba $WT/run_suite.sh $WT /tmp/vs_suite_${ID}_$X | grep -v "^FAILED\|^  NOT" ; suite=${PIPESTATUS[0]}
+NUMBA_CACHE_DIR=$WT/.numba $WT/run_suite.sh $WT /tmp/vs_suite_${ID}_$X | grep -v "^FAILED" ; suite=${PIPESTATUS[0]}
 rm -f $WT/run_suite.sh
 git apply -R $SRC/patch.diff
 PYTHONPATH=$WT/src NUMBA_CACHE_DIR=$WT/.numba timeout 900 /venv/bin/python $SRC/demo.py >/dev/null 2>&1; without=$?
@@ -26,7 +33,7 @@ import json,sys,subprocess
 pid,x,d=sys.argv[1:]
 head=subprocess.run(["git","-C","/repo","rev-parse","--short","HEAD"],capture_output=True,text=True).stdout.strip()
 notes=open(d+"/notes.md").read()
-json.dump({"property":pid,"name":f"{pid}-{x}","source":"independent sub-agent given only the property text and a scratch worktree",
+json.dump({"property":pid[:3],"name":f"{pid}-{x}","source":"independent sub-agent given only the property text and a scratch worktree",
  "needs_to_manifest":"see notes.md","verified":{"repo_head":head,"patch_applies":True,"demo_exit_with_change":"non-zero","demo_exit_without_change":0,
  "pinned_suite_with_change":"all BASELINE stable_pass tests pass (tools/run_suite.sh)"},"ran":["git apply patch.diff in scratch worktree","python demo.py (with/without)","tools/run_suite.sh <worktree>"]},open(d+"/meta.json","w"),indent=1)
 PY
